@@ -243,7 +243,8 @@ def offsets_table(sysd):
     txt = "rank       hostname             offset_median        offset_mean          offset_std\n"
     for r, l in enumerate(looms):
         o = sysd["off"][l - 1]
-        txt += "%-10d %-20s %-20d %-20.6f %-20.6f\n" % (r, "node%d" % l, o, float(o), 0.0)
+        # only the median is the offset; mean and deviation are made unrelated on purpose
+        txt += "%-10d %-20s %-20d %-20.6f %-20.6f\n" % (r, "node%d" % l, o, 500.25 * (r + 1) - 3 * o, 3.5 + r)
     return txt
 
 
@@ -361,6 +362,12 @@ def emu_verdict_ok(r, lay, sysd):
     return seen == empty
 
 
+def differ(name, v1, v2, a, b):
+    return ("%s depends on the order in which the stream directories are enumerated: [%s] and [%s] differ\n"
+            "--- %s\n%s\n--- %s\n%s" % (name, v1, v2, v1, a.decode("latin1")[:1500], v2, b.decode("latin1")[:1500]),
+            "enum-order")
+
+
 def run_case(arg):
     bdir, shim, sysd, seed_ = arg
     rng = random.Random(seed_)
@@ -372,9 +379,10 @@ def run_case(arg):
         while sh == ident or sh == ident[::-1]:
             rng.shuffle(sh)
         orders.append(("shuffled", sh))
-    res = {"sys": sysd, "problems": [], "executions": [], "runs": 0, "files": None, "emu_refused_empty": False}
+    res = {"sys": sysd, "problems": [], "executions": [], "runs": 0, "emu_refused_empty": False}
     roots = []
-    ref = None
+    ref_dump = ref_emu = None
+    files = res["files"] = {"clock-offsets.txt": offsets_table(sysd)}
     try:
         for oi, (oname, order) in enumerate(orders):
             root = trace_scratch()
@@ -385,18 +393,42 @@ def run_case(arg):
             offfile = os.path.join(root, "offsets.txt")
             with open(offfile, "w") as f:
                 f.write(offsets_table(sysd))
+            if oi == 0:
+                for st in lay:
+                    for fn in ("stream.obs", "stream.json"):
+                        with open(os.path.join(td, st["rel"], fn), "rb") as f:
+                            files["trace/%s/%s" % (st["rel"], fn)] = f.read()
             variants = [(oname, {})]
             if oi == 0 and shim:
-                variants += [("sorted+nftw-rev", {"LD_PRELOAD": shim, "VERIF_NFTW_ORDER": "rev"}),
+                variants += [("sorted+nftw-alpha", {"LD_PRELOAD": shim, "VERIF_NFTW_ORDER": "alpha"}),
+                             ("sorted+nftw-rev", {"LD_PRELOAD": shim, "VERIF_NFTW_ORDER": "rev"}),
                              ("sorted+nftw-seed", {"LD_PRELOAD": shim,
                                                    "VERIF_NFTW_ORDER": "seed:%d" % rng.randrange(1 << 30)})]
             for vname, env in variants:
+                # ---- ovnidump (+ ovnitop once)
                 rd = emu.runtool(bdir, "ovnidump", ["-x", td], timeout=60, env=env)
                 res["runs"] += 1
                 if rd.rc != 0:
                     res["problems"].append(("ovnidump failed (%s) on sorted streams [%s]: %s"
                                             % (rd.verdict, vname, rd.last_errors()), "dump-fail"))
-                    continue
+                elif ref_dump is None:
+                    ref_dump = (vname, rd.out)
+                    dl, bad = parse_dump(rd.out.decode("latin1"), lay)
+                    if bad:
+                        raise core.MachineryError("cannot parse ovnidump output: %r" % bad[:3])
+                    rt = emu.runtool(bdir, "ovnitop", [td], timeout=60)
+                    res["runs"] += 1
+                    top = parse_top(rt.out.decode("latin1")) if rt.rc == 0 else -1
+                    if rt.rc != 0:
+                        res["problems"].append(("ovnitop failed (%s): %s" % (rt.verdict, rt.last_errors()), "top-fail"))
+                    ex1 = [sys_record(sysd, "dump")]
+                    ex1 += [em_record(v, sysd, c=clk - BASE, stream=si) for (v, clk, si) in dl]
+                    ex1.append({"e": "end", "top": top})
+                    res["executions"].append(ex1)
+                    files["ovnidump.out"] = rd.out
+                elif rd.out != ref_dump[1]:
+                    res["problems"].append(differ("ovnidump output", ref_dump[0], vname, ref_dump[1], rd.out))
+                # ---- ovniemu
                 args = ("-l",) if in_dir else ("-l", "-c", offfile)
                 re_ = emu.ovniemu(bdir, td, args, timeout=60, env=env)
                 res["runs"] += 1
@@ -413,45 +445,20 @@ def run_case(arg):
                 except OSError as ex:
                     res["problems"].append(("ovniemu wrote no Paraver trace [%s]: %s" % (vname, ex), "no-prv"))
                     continue
-                cur = (rd.out, tprv, cprv)
-                if ref is None:
-                    ref = (vname, cur)
-                    # project the reference run for the trace validation
-                    dl, bad = parse_dump(rd.out.decode("latin1"), lay)
-                    if bad:
-                        raise core.MachineryError("cannot parse ovnidump output: %r" % bad[:3])
-                    rt = emu.runtool(bdir, "ovnitop", [td], timeout=60)
-                    res["runs"] += 1
-                    top = parse_top(rt.out.decode("latin1")) if rt.rc == 0 else -1
-                    if rt.rc != 0:
-                        res["problems"].append(("ovnitop failed (%s): %s" % (rt.verdict, rt.last_errors()), "top-fail"))
-                    ex1 = [sys_record(sysd, "dump")]
-                    ex1 += [em_record(v, sysd, c=clk - BASE, stream=si) for (v, clk, si) in dl]
-                    ex1.append({"e": "end", "top": top})
+                if ref_emu is None:
+                    ref_emu = (vname, tprv, cprv)
                     marks, prv = prv_marks(os.path.join(td, "thread.prv"))
                     if prv.bad:
                         res["problems"].append(("malformed lines in thread.prv: %r" % prv.bad[:2], "prv-bad"))
                     ex2 = [sys_record(sysd, "emu")]
                     ex2 += [em_record(v, sysd, t=t) for (v, t) in marks]
                     ex2.append({"e": "end", "top": -1})
-                    res["executions"] = [ex1, ex2]
-                    res["files"] = {}
-                    for st in lay:
-                        for fn in ("stream.obs", "stream.json"):
-                            p = os.path.join(td, st["rel"], fn)
-                            res["files"]["trace/%s/%s" % (st["rel"], fn)] = open(p, "rb").read()
-                    res["files"]["clock-offsets.txt"] = offsets_table(sysd)
-                    res["files"]["ovnidump.out"] = rd.out
-                    res["files"]["thread.prv"] = tprv
+                    res["executions"].append(ex2)
+                    files["thread.prv"] = tprv
                 else:
-                    for name, a, b in (("ovnidump output", ref[1][0], cur[0]),
-                                       ("thread.prv", ref[1][1], cur[1]), ("cpu.prv", ref[1][2], cur[2])):
+                    for name, a, b in (("thread.prv", ref_emu[1], tprv), ("cpu.prv", ref_emu[2], cprv)):
                         if a != b:
-                            res["problems"].append(
-                                ("%s depends on the order in which the stream directories are enumerated: "
-                                 "[%s] and [%s] differ\n--- %s\n%s\n--- %s\n%s"
-                                 % (name, ref[0], vname, ref[0], a.decode("latin1")[:1500], vname,
-                                    b.decode("latin1")[:1500]), "enum-order"))
+                            res["problems"].append(differ(name, ref_emu[0], vname, a, b))
                             break
     finally:
         for r_ in roots:
@@ -482,7 +489,7 @@ def build_shim(bdir):
             args = ["-x", td] if tool == "ovnidump" else ["-l", td]
             r = emu.runtool(bdir, tool, args, env={"LD_PRELOAD": out, "VERIF_NFTW_ORDER": "rev",
                                                    "VERIF_NFTW_MARK": mark})
-            if r.rc != 0 or not os.path.exists(mark):
+            if not os.path.exists(mark):       # (the verdict of the tool is not the shim's business)
                 raise core.MachineryError("nftw shim is not effective for %s (rc=%s): %s"
                                           % (tool, r.rc, r.text[-500:]))
     finally:
@@ -592,9 +599,9 @@ def main(pid, tier):
     ck.notes["tool_runs"] = nruns
     ck.notes["systems_with_empty_streams_refused_at_finish_only"] = nempty_refused
     for r_ in results[:2] + results[-2:]:
-        if r_["executions"]:
-            ck.sample({"system": r_["sys"],
-                       "ovniemu_replay": [[e["s"], e["k"], e["t"]] for e in r_["executions"][1][1:-1]]})
+        for ex in r_["executions"]:
+            if ex[0]["tool"] == "emu":
+                ck.sample({"system": r_["sys"], "ovniemu_replay": [[e["s"], e["k"], e["t"]] for e in ex[1:-1]]})
     ck.assumptions += [
         "corrected clocks are non-negative (raw clocks are written as %d + c; stream_step compares the first "
         "corrected clock with lastclock = 0 and would refuse a negative one)" % BASE,
@@ -607,7 +614,7 @@ def main(pid, tier):
     return ck.finish(rule="cases = (a) TLC-exported insert/pop sequences replayed on the real heap.h (non-trivial = at "
                           "least one pop of a non-empty heap; distinct by op sequence) and (b) TLC-exported systems "
                           "(streams, looms, offsets) replayed by ovnidump/ovnitop/ovniemu in 3 directory creation orders "
-                          "and 2 nftw permutations (non-trivial = at least two streams with events; distinct by system)")
+                          "and 3 nftw enumeration orders (non-trivial = at least two streams with events; distinct by system)")
 
 
 def trace_scratch_kind():
